@@ -256,6 +256,41 @@ theorem drop_vs_insert_witness :
     ∧ (resultsOf dropVsInsertSchedule).filter (fun r => r.1 != 0) = [(2, true), (1, true)] := by
   decide
 
+/-- `DROP TABLE t1` pinned a snapshot in which row-set 0_0 carries a delete vector and built its
+changeset (`DeleteDV 0_0 dv0`) from it; a compaction pass that had started before commits in
+between and (since /repo 5071ff5) deletes that delete vector together with the row-sets. -/
+def dropDvVsCompactionSchedule : List Act :=
+  [.cmdBegin (0,0) (.create 1), .bound (0,0), .commitBegin (0,1), .commitA (0,1), .append (0,1),
+   .committed (0,1), .createApplied (0,1), .cmdDone (0,0), .cmdBegin (0,0) (.insert 1 [1, 2]),
+   .pin (0,0), .txnPinned (0,0) .ro 0, .unpin (0,0) 2, .bound (0,0), .pin (0,2),
+   .txnPinned (0,2) .rw 0, .commitBegin (0,2), .commitA (0,2), .append (0,2), .committed (0,2),
+   .unpin (0,2) 2, .cmdDone (0,0), .cmdBegin (0,0) (.insert 1 [3, 4]), .pin (0,0),
+   .txnPinned (0,0) .ro 0, .unpin (0,0) 3, .bound (0,0), .pin (0,3), .txnPinned (0,3) .rw 0,
+   .commitBegin (0,3), .commitA (0,3), .append (0,3), .committed (0,3), .unpin (0,3) 3,
+   .cmdDone (0,0), .cmdBegin (0,0) (.delete 1 .lt 3), .pin (0,0), .txnPinned (0,0) .ro 0,
+   .unpin (0,0) 4, .bound (0,0), .pin (0,4), .txnPinned (0,4) .ro 0, .pin (0,5),
+   .txnPinned (0,5) .upd 0, .unpin (0,4) 4, .txnLocked (0,5), .commitBegin (0,5), .commitA (0,5),
+   .append (0,5), .committed (0,5), .unpin (0,5) 4, .cmdDone (0,0), .cmdBegin (1,0) (.drop 1),
+   .cmdBegin (2,0) .compact, .pin (2,0), .cpPinned (2,0), .pin (1,0), .txnPinned (1,0) .ro 0,
+   .unpin (1,0) 5, .bound (1,0), .dropApplied (1,1), .pin (1,1), .commitBegin (1,1),
+   .cpTable (2,0) 0, .cpLocked (2,0) 0, .commitBegin (2,0), .commitA (2,0), .append (2,0),
+   .committed (2,0), .cpEnd (2,0), .unpin (2,0) 5, .cmdDone (2,0), .panic (1,1), .unpin (1,1) 5,
+   .cmdDone (1,0)]
+
+/-- Phase A of the DROP's commit unwraps a missing entry in `Snapshot::delete_dv`: the operator
+task panics, the statement returns Ok with no rows, the table is gone from the catalog but no
+DropTable record was written (after reopen the table is back). -/
+theorem drop_dv_vs_compaction_witness :
+    (run init dropDvVsCompactionSchedule).isSome = true
+    ∧ (stateOf dropDvVsCompactionSchedule).tables = []
+    ∧ (((stateOf dropDvVsCompactionSchedule).k.log.flatMap id).filter (fun o => match o with
+        | .drop _ => true
+        | _ => false)).length = 0
+    ∧ (stateOf dropDvVsCompactionSchedule).outs.getLast?.map (fun o => match o.2.2 with
+        | .rows xs => xs.length
+        | _ => 99) = some 0 := by
+  decide
+
 /-- "No session or background pass panics" is false without the restriction. -/
 theorem no_panic_unrestricted_false :
     ¬ (∀ acts : List Act, (run init acts).isSome = true → panicked acts = false) := by
